@@ -70,7 +70,8 @@ def instance_line(jobs) -> str:
     return " ".join(out)
 
 
-REUSE_OPERATIONS = False     # set per scenario (meta "reuse_ops"): see build_instance
+REUSE_OPERATIONS = False
+SIBLING = False     # set per scenario by framework.run_impl: a busy sibling dispatcher on another instance in the same process
 
 
 def build_instance(jobs, name="verif") -> JobShopInstance:
@@ -148,12 +149,58 @@ class Impl:
             f"jn {' '.join(map(str, d.job_next_available_time))}"
         )
 
+    # ------------------------------------------------------------------ the sibling (see framework.run_impl)
+    def _make_sibling(self):
+        """Another instance of the same shape (same operation ids, other machines, other durations) with its own dispatcher
+        (same filter configuration) and a few observers of its own."""
+        self.sibling = None
+        if not SIBLING or self.jobs is None or any(d >= 2 ** 24 for job in self.jobs for _, d in job):
+            return
+        M = 1 + max(m for job in self.jobs for ms, _ in job for m in ms)
+        sj = [[([(m + 1) % M for m in ms], d + 1 + (j + p) % 3) for p, (ms, d) in enumerate(job)] for j, job in enumerate(self.jobs)]
+        try:
+            inst = JobShopInstance([[Operation(list(ms), d) for ms, d in job] for job in sj], name="sibling")
+            d = Dispatcher(inst, ready_operations_filter=self._make_filter())
+            from job_shop_lib.dispatching.feature_observers import IsReadyObserver, EarliestStartTimeObserver
+            IsReadyObserver(d)
+            EarliestStartTimeObserver(d)
+            jsl.HistoryObserver(d)
+            self.sibling = d
+            self._sib_turn = 0
+        except Exception as e:  # pylint: disable=broad-except
+            self.sibling_error = repr(e)
+
+    def _sibling_turn(self):
+        d = getattr(self, "sibling", None)
+        if d is None:
+            return
+        self._sib_turn += 1
+        try:
+            if self._sib_turn % 3 == 0:
+                d.current_time()
+                d.ongoing_operations()
+                for op in d.unscheduled_operations()[:3]:
+                    d.earliest_start_time(op)
+            elif d.schedule.is_complete():
+                d.reset()
+            else:
+                ops = d.available_operations()
+                op = ops[self._sib_turn % len(ops)]
+                d.dispatch(op, op.machines[self._sib_turn % len(op.machines)])
+        except Exception as e:  # pylint: disable=broad-except
+            self.sibling_error = repr(e)
+
     # ------------------------------------------------------------------ commands
     def exec(self, line: str) -> str:
         ts = line.split()
         if not ts:
             return ""
         cmd = ts[0]
+        if cmd not in ("new", "inst", "filter", "mark"):
+            self._sibling_turn()
+        if getattr(self, "sibling_error", None):
+            err, self.sibling_error = self.sibling_error, None
+            return f"sibling-error {err}"
         try:
             handler = getattr(self, "cmd_" + cmd)
         except AttributeError:
@@ -172,6 +219,7 @@ class Impl:
         self.instance = build_instance(self.jobs)
         self.ops = [op for job in self.instance.jobs for op in job]
         self._new_dispatcher()
+        self._make_sibling()
         valid = all(
             len(ms) > 0 and len(set(ms)) == len(ms) and d >= 0 for job in self.jobs for ms, d in job
         )
@@ -192,6 +240,9 @@ class Impl:
         else:
             assert ts[0] == "comp"
             self.filter_tokens = ts[1:]
+        if getattr(self, "sibling", None) is not None:
+            self.sibling.ready_operations_filter = self._make_filter()
+            self.sibling._cache = {}  # pylint: disable=protected-access
         if self.dispatcher is not None:
             self.dispatcher.ready_operations_filter = self._make_filter()
             # a new filter on a live dispatcher: the memo must not survive
